@@ -187,11 +187,119 @@ pub fn real_queens(bindir: &str, n: usize) -> String {
     }
 }
 
+/// evaluate a generated formula (an &-chain of counting constraints over plain variables) under an assignment
+fn eval_generated(f: &SymbolicBDD, val: &dyn Fn(&str) -> bool) -> Option<bool> {
+    match f {
+        SymbolicBDD::True => Some(true),
+        SymbolicBDD::False => Some(false),
+        SymbolicBDD::Var(v) => Some(val(&v.name)),
+        SymbolicBDD::Not(g) => eval_generated(g, val).map(|b| !b),
+        SymbolicBDD::BinaryOp(BinaryOperator::And, a, b) => Some(eval_generated(a, val)? && eval_generated(b, val)?),
+        SymbolicBDD::BinaryOp(BinaryOperator::Or, a, b) => Some(eval_generated(a, val)? || eval_generated(b, val)?),
+        SymbolicBDD::CountableConst(op, fs, n) => {
+            let mut c = 0usize;
+            for g in fs {
+                if eval_generated(g, val)? {
+                    c += 1;
+                }
+            }
+            Some(match op {
+                CountableOperator::AtMost => c <= *n,
+                CountableOperator::LessThan => c < *n,
+                CountableOperator::AtLeast => c >= *n,
+                CountableOperator::MoreThan => c > *n,
+                CountableOperator::Exactly => c == *n,
+            })
+        }
+        _ => None,
+    }
+}
+
+/// all placements of n non-attacking queens, one per row (column of the queen in row r), in lexicographic order
+fn queens_placements(n: usize) -> Vec<Vec<usize>> {
+    fn go(n: usize, cur: &mut Vec<usize>, out: &mut Vec<Vec<usize>>) {
+        let r = cur.len();
+        if r == n {
+            out.push(cur.clone());
+            return;
+        }
+        for c in 0..n {
+            if cur.iter().enumerate().all(|(r2, c2)| *c2 != c && r - r2 != c.abs_diff(*c2)) {
+                cur.push(c);
+                go(n, cur, out);
+                cur.pop();
+            }
+        }
+    }
+    let mut out = vec![];
+    go(n, &mut vec![], &mut out);
+    out
+}
+
+/// the real formula evaluated on every n-queens placement (all must satisfy it) and on every placement with one
+/// queen moved to another column of its row (none may satisfy it)
+pub fn real_queenssols(bindir: &str, n: usize) -> String {
+    let outp = match run_gen(bindir, "n_queens_gen", &["-n".into(), n.to_string()], None) {
+        Err(e) => return e,
+        Ok(o) => o,
+    };
+    let mut rd = std::io::BufReader::new(&outp[..]);
+    let p = match ParsedFormula::new(&mut rd, None) {
+        Err(_) => return "(not-a-formula)".into(),
+        Ok(p) => p,
+    };
+    let sols = queens_placements(n);
+    let mut rejected: Option<String> = None;
+    let mut accepted_wrong: Option<String> = None;
+    let mut nsat = 0usize;
+    for s in &sols {
+        let val = |name: &str| -> bool { name.strip_prefix("v_").and_then(|k| k.parse::<usize>().ok()).map(|k| s[k / n] == k % n).unwrap_or(false) };
+        match eval_generated(&p.bdd, &val) {
+            Some(true) => nsat += 1,
+            Some(false) => {
+                if rejected.is_none() {
+                    rejected = Some(s.iter().map(|c| c.to_string()).collect::<Vec<_>>().join(" "));
+                }
+            }
+            None => return "(unexpected-shape)".into(),
+        }
+        // near misses: move the queen of row 0 (and of the last row) to every other column
+        for row in [0usize, n - 1] {
+            for c in 0..n {
+                if c == s[row] {
+                    continue;
+                }
+                let mut t = s.clone();
+                t[row] = c;
+                let val2 = |name: &str| -> bool { name.strip_prefix("v_").and_then(|k| k.parse::<usize>().ok()).map(|k| t[k / n] == k % n).unwrap_or(false) };
+                if eval_generated(&p.bdd, &val2) == Some(true) && accepted_wrong.is_none() && !sols.contains(&t) {
+                    accepted_wrong = Some(t.iter().map(|c| c.to_string()).collect::<Vec<_>>().join(" "));
+                }
+            }
+        }
+    }
+    format!("(ok {} {} (rejected {}) (accepted-wrongly {}))", sols.len(), nsat, rejected.unwrap_or_default(), accepted_wrong.unwrap_or_default())
+}
+
 /// large boards: number of conjuncts and largest index only (the parse of a 300x300 board is slow on the model side)
 pub fn real_queensbig(bindir: &str, n: usize) -> String {
     match run_gen(bindir, "n_queens_gen", &["-n".into(), n.to_string()], None) {
         Err(e) => e,
         Ok(out) => {
+            {
+                let mut rd = std::io::BufReader::new(&out[..]);
+                if rsbdd::parser::SymbolicBDD::tokenize(&mut rd, None).is_err() {
+                    return "(not-a-formula)".into();
+                }
+                // anything that is not a comment, a constraint list line, the final `true` or blank makes it ill-formed
+                for line in String::from_utf8_lossy(&out).lines() {
+                    let l = line.trim();
+                    let ok = l.is_empty() || (l.starts_with('"') && l.ends_with('"')) || l == "true" || (l.starts_with('[') && (l.ends_with("] <= 1 &") || l.ends_with("] = 1 &")));
+                    if !ok {
+                        return "(not-a-formula)".into();
+                    }
+                }
+            }
             let text = String::from_utf8_lossy(&out);
             let mut maxidx = 0u64;
             let mut count = 0u64;
@@ -382,7 +490,10 @@ pub fn main(out: &mut Out, o: &Opts) {
         match p.as_str() {
             "queens" => {
                 let max = if o.thorough { 40 } else { 12 };
-                let ns: Vec<usize> = (0..=max).collect();
+                let mut ns: Vec<usize> = (0..=max).collect();
+                if !o.thorough {
+                    ns.extend([16usize, 17, 20, 33]);
+                }
                 let res = par_map(&ns, |n| real_queens(&bindir, *n));
                 for (n, r) in ns.iter().zip(res.iter()) {
                     out.emit("queens", &Sx::l(vec![Sx::n(n)]).show(), r);
@@ -407,6 +518,12 @@ pub fn main(out: &mut Out, o: &Opts) {
                 });
                 for (n, r) in filed.iter().zip(res.iter()) {
                     out.emit("queens", &Sx::l(vec![Sx::n(n), Sx::a("to-file")]).show(), r);
+                }
+                // every n-queens placement must satisfy the real formula, near misses must not (n = 5..9)
+                let mid: Vec<usize> = if o.thorough { vec![5, 6, 7, 8, 9, 10] } else { vec![5, 6, 7, 8, 9] };
+                let res = par_map(&mid, |n| real_queenssols(&bindir, *n));
+                for (n, r) in mid.iter().zip(res.iter()) {
+                    out.emit("queenssols", &Sx::l(vec![Sx::n(n)]).show(), r);
                 }
                 let big: Vec<usize> = if o.thorough { vec![100, 255, 256, 257, 300, 400] } else { vec![255, 256, 300] };
                 let res = par_map(&big, |n| real_queensbig(&bindir, *n));
@@ -753,6 +870,7 @@ pub fn replay(op: &str, args: &Sx, bindir: &str) -> String {
     match op {
         "queens" => num(&a[0]).map(|n| real_queens(bindir, n)).unwrap_or("(harness-error)".into()),
         "queensbig" => num(&a[0]).map(|n| real_queensbig(bindir, n)).unwrap_or("(harness-error)".into()),
+        "queenssols" => num(&a[0]).map(|n| real_queenssols(bindir, n)).unwrap_or("(harness-error)".into()),
         "sudoku" => {
             let r = num(&a[0]).unwrap_or(1);
             let text: String = a[1].list().unwrap_or(&[]).iter().filter_map(|x| x.atom()?.split(':').next()?.parse::<u32>().ok().and_then(char::from_u32)).collect();
